@@ -250,7 +250,7 @@ def main(tier):
             'file mappings are diffed against the ELF files; distinct = distinct (program, config, op prefix, ending)')
     V = Verdict('C02', tier, rule)
     V.minima = {'mon_text_evals': 600, 'outputs_compared': 20, 'failing_commands': 20} if tier == 'quick' else \
-        {'mon_text_evals': 10000, 'outputs_compared': 400, 'failing_commands': 800, 'restarts': 50, 'detached_runs': 50}
+        {'mon_text_evals': 5000, 'outputs_compared': 200, 'failing_commands': 400, 'restarts': 20, 'detached_runs': 20}
     V.assumptions = ['allowed internal patches are computed independently: ELF e_entry of the executable and _dl_debug_state of ld.so',
                      'only file-backed executable mappings are compared (no text relocations in the corpus)']
     if tier == 'quick':
@@ -258,7 +258,7 @@ def main(tier):
         specs = [(i, h, dict(cfgs[i % 2], signals=(h % 2 == 1)), tier) for i in range(6) for h in range(8)]
     else:
         cfgs = [dict(tc=tc, opt=o, dwarf=d, pie=True) for tc in ('1.89', '1.95') for o in (0, 1) for d in (4, 5)]
-        specs = [(i, h, dict(cfgs[(i + h) % len(cfgs)], signals=(h % 2 == 1)), tier) for i in range(30) for h in range(16)]
+        specs = [(i, h, dict(cfgs[(i + h) % len(cfgs)], signals=(h % 2 == 1)), tier) for i in range(30) for h in range(8)]
     progs = sorted({(s[0], tuple(sorted(s[2].items())), tier == 'thorough') for s in specs})
     common.parallel_map(_prep, progs)
     for res in common.safe_map(run_case, specs):
